@@ -107,7 +107,10 @@ def sweep_ioerror(prop, seed, cfg, ops, tier, agg):
             if s[1] in POST_ELIGIBLE:
                 cands.append((s, "post"))
         if tier == "quick":
-            cands = _pick(rng, cands, 6)
+            # the swap of a rewrite is always among the sampled calls
+            swap = [c for c in cands if c[0][1] == "rename" and
+                    c[1] == "pre"]
+            cands = _pick(rng, [c for c in cands if c not in swap], 6) + swap
         for s, mode in cands:
             if _late(agg):
                 return
@@ -116,6 +119,16 @@ def sweep_ioerror(prop, seed, cfg, ops, tier, agg):
             ops2 = _variant(ops, j, f, True)
             r = run_case(prop, cfg, ops2)
             agg.add_result(seed, cfg, ops2, r)
+            if ops[j]["op"] in REWRITES and (mode == "post" or s[1] in (
+                    "rename", "close", "fsync", "open")):
+                # a rewrite that died around its swap may leave the object
+                # with a closed or stale handle: follow it with a write that
+                # empties the database, then ask for sizes
+                ops3 = ops2[:j + 1] + [{"op": "remove_all"}, {"op": "len"},
+                                       {"op": "get_measurements"}] + \
+                    ops2[j + 1:]
+                r = run_case(prop, cfg, ops3)
+                agg.add_result(seed, cfg, ops3, r)
             if ops[j]["op"] in READS and s[1] == "read" and mode == "pre":
                 # a read that died in the middle of rebuilding the index:
                 # ask for sizes straight away, through the database and
